@@ -523,6 +523,10 @@ class AutoEvaluator(Evaluator):
         kw.setdefault("erase_subscripts", False)
         super().__init__(**kw)
         self.cells = []
+        self.calls = []          # (dotted callee or '.method', [positional values], {keyword: value}, node) in evaluation order
+        self.seq = 0             # evaluation clock: cell_seq[i] / call_seq[i] order stores and calls against each other
+        self.cell_seq = []
+        self.call_seq = []
         self.buffers = set()
         if fn is not None:
             for n in ast.walk(fn):
@@ -569,6 +573,8 @@ class AutoEvaluator(Evaluator):
             return F.sym(node.id)
         if isinstance(node, ast.Constant) and node.value is None:
             return F.sym("None")
+        if isinstance(node, ast.Constant) and node.value is Ellipsis:
+            return F.sym("Ellipsis")
         if isinstance(node, ast.Constant) and isinstance(node.value, str):
             return F.sym(repr(node.value))
         if isinstance(node, ast.Compare) and len(node.ops) == 1:
@@ -620,6 +626,7 @@ class AutoEvaluator(Evaluator):
         return super()._ev(node)
 
     def _call(self, node):
+        self._record_call(node)
         r = super()._call(node)
         if not is_unknown(r):
             return r
@@ -652,12 +659,29 @@ class AutoEvaluator(Evaluator):
             args.append(F.fn("kw:" + k.arg, need(v)))
         return F.fn("call:" + name, *args)
 
+    def _record_call(self, node):
+        name = dotted(node.func)
+        if name is None and isinstance(node.func, ast.Attribute):
+            name = "." + node.func.attr
+        if name is None:
+            return
+        try:
+            pos = [self.ev(a) for a in node.args if not isinstance(a, ast.Starred)]
+            kws = {k.arg: self.ev(k.value) for k in node.keywords if k.arg is not None}
+        except Unsupported:
+            return
+        self.seq += 1
+        self.call_seq.append(self.seq)
+        self.calls.append((name, pos, kws, node))
+
     def _assign(self, target, v, st, aug=False):
         if isinstance(target, ast.Subscript) and isinstance(target.value, ast.Name) and target.value.id in self.buffers:
             try:
                 ix = self._index_value(target.slice)
             except Unsupported as e:
                 ix = Unknown(str(e))
+            self.seq += 1
+            self.cell_seq.append(self.seq)
             self.cells.append((target.value.id, ix, v, st))
             self.stores.append((target.value.id, ast.unparse(target.slice), v, st))
             return
